@@ -77,13 +77,14 @@ class TagMonitor:
             outtok, intoks = ops[0], ops[1:]
         else:
             outtok, intoks = None, ops
-        for tok, v in zip(intoks, rec["ins"]):
+        for oi, (tok, v) in enumerate(zip(intoks, rec["ins"])):
             if v and v.startswith("__register.") and REG.match(tok):
                 self.virtuals.add(v)
                 tg = self.tags.get(tok)
                 if tg is not None and tg != v:
                     self.clobbers.append({
                         "line": pc, "text": " ".join(t), "reg": tok, "expected": v, "found": tg,
+                        "input_index": oi,
                         "reader_scope": rec.get("scope"), "writer_scope": self.tag_scope.get(tok),
                         "reader_region": rec.get("region"), "writer_region": self.tag_region.get(tok),
                     })
